@@ -111,7 +111,7 @@ def gen_scenario(rng):
 class C18(PropCheck):
     pid = "C18"
     prop_module = "SigHook.Props.C18"
-    extra_modules = ("SigHook.Props.C18b",)
+    extra_modules = ("SigHook.Props.C18b", "SigHook.Props.C18c")
     assumptions = [
         "sequential consistency for the half-lock (all SeqCst, checked in C01_halflock_all_seqcst)",
         "finite workloads: every thread runs a finite script; a writer may spin for as long as a reader stays inside its read section (by design)",
